@@ -72,6 +72,60 @@ func consts(f *ast.File) map[string]interface{} {
 	return out
 }
 
+// string constants of a package, including those written as concatenations of literals and other constants
+// (`const negativeFormat = red + "%10.2f" + reset`)
+func stringConsts(f *ast.File) map[string]string {
+	exprs := map[string]ast.Expr{}
+	for _, d := range f.Decls {
+		gd, ok := d.(*ast.GenDecl)
+		if !ok || gd.Tok != token.CONST {
+			continue
+		}
+		for _, s := range gd.Specs {
+			vs := s.(*ast.ValueSpec)
+			for i, n := range vs.Names {
+				if i < len(vs.Values) {
+					exprs[n.Name] = vs.Values[i]
+				}
+			}
+		}
+	}
+	out := map[string]string{}
+	var eval func(e ast.Expr, depth int) (string, bool)
+	eval = func(e ast.Expr, depth int) (string, bool) {
+		if depth > 20 {
+			return "", false
+		}
+		switch x := e.(type) {
+		case *ast.BasicLit:
+			if v, ok := lit(x); ok {
+				if sv, ok := v.(string); ok {
+					return sv, true
+				}
+			}
+		case *ast.Ident:
+			if ex, ok := exprs[x.Name]; ok {
+				return eval(ex, depth+1)
+			}
+		case *ast.ParenExpr:
+			return eval(x.X, depth+1)
+		case *ast.BinaryExpr:
+			if x.Op == token.ADD {
+				a, ok1 := eval(x.X, depth+1)
+				b, ok2 := eval(x.Y, depth+1)
+				return a + b, ok1 && ok2
+			}
+		}
+		return "", false
+	}
+	for n, e := range exprs {
+		if v, ok := eval(e, 0); ok {
+			out[n] = v
+		}
+	}
+	return out
+}
+
 func lit(e ast.Expr) (interface{}, bool) {
 	bl, ok := e.(*ast.BasicLit)
 	if !ok {
@@ -286,6 +340,17 @@ func main() {
 	balCFmt := fp("balance/balance_reporter_collapsed.go", 1, []string{balRow})
 	balSFmt := fp("balance/balance_reporter_single.go", 2, []string{"%s|\n", "%10.2f | %s\n"})
 	prFmt := fp("print/print_reporter.go", 4, []string{"%s:\n", "  # %s: %s\n", "  # %s\n", "  - %s: %0.2f\n"})
+	// formatValue: the two coloured formats (constants written as concatenations) and the plain one
+	rep := parseDir(filepath.Join(cli, "reporter"))
+	repc := stringConsts(rep)
+	valFmt := []string{repc["negativeFormat"], repc["positiveFormat"]}
+	plain := callArgs(rep, "fmt.Sprintf", 0)
+	if valFmt[0] == "" || valFmt[1] == "" || len(plain) != 2 || plain[0] != plain[1] {
+		fallback("the formats of reporter.getFormatValue")
+		valFmt = []string{"\x1b[31m%10.2f\x1b[0m", "\x1b[32m%10.2f\x1b[0m", "%10.2f"}
+	} else {
+		valFmt = append(valFmt, plain[0])
+	}
 	lFmt, lW, lHead := templateFacts(str(reg, "leftAlignedTemplate", ""), "register.leftAlignedTemplate",
 		[]string{"  %s  %s", "  %s    %s", "  %s %s = %s  %s"}, []int{},
 		"------------------------------------------------------- TOTAL --")
@@ -377,6 +442,8 @@ func main() {
 	w("def balanceSingleFormats : List (List UInt8) := %s", bytesLits(balSFmt))
 	w("/-- print_reporter.go: heading, named note, plain note, element -/")
 	w("def printFormats : List (List UInt8) := %s", bytesLits(prFmt))
+	w("/-- reporter.getFormatValue: the format used for a value > 0, for a value < 0, and without colour / for 0 -/")
+	w("def valueFormats : List (List UInt8) := %s", bytesLits(valFmt))
 	w("def regLeftTotalsHead : List UInt8 := %s", bytesLit(lHead))
 	w("")
 	w("end Hrano.Facts")
